@@ -265,6 +265,14 @@ U(id="C17.dec.lzma", props=["C17", "C06", "C19"], file="lzma_reader.rs", harness
   functions=[("src/lzma_reader.rs", "get_memory_usage"), ("src/lzma_reader.rs", "get_memory_usage_by_props"), ("src/lzma_reader.rs", "get_dict_size"),
              ("src/lzma_reader.rs", "new_mem_limit"), ("src/lzma_reader.rs", "construct1"), ("src/lzma_reader.rs", "construct2")],
   contract="forall (dict,lc,lp)/(dict,props): Err exactly outside the ranges, no overflow, estimate >= dictionary + probability tables; new_mem_limit on any 13-byte header: need>limit => OutOfMemory before any allocation, dictionary allocated = rounded clamped size <= estimate, decoder gets the header's lc/lp/pb")
+U(id="C01.sym.slot", props=["C01", "C03"], file="enc/encoder.rs", extra_files=["state.rs"], stubs=[],
+  harnesses=["c01_dist_slot", "c01_dist_state", "state::verif_kani::c01_state_tables"],
+  functions=[("src/enc/encoder.rs", "get_dist_slot"), ("src/lib.rs", "get_dist_state"), ("src/lib.rs", "coder_get_dict_size"),
+             ("src/state.rs", "update_literal"), ("src/state.rs", "update_match"), ("src/state.rs", "update_long_rep"), ("src/state.rs", "update_short_rep")],
+  contract="forall dist:u32: slot<64, base<=dist<base+2^footer_bits, base|footer = dist (decoder reconstruction), monotone; len->dist state = min(len-2,3); state machine = LZMA specification tables")
+U(id="C19.props", props=["C19", "C03", "C18"], file="enc/lzma2_writer.rs", stubs=[], harnesses=["c19_props_roundtrip", "c19_presets_in_range"],
+  functions=[("src/enc/lzma2_writer.rs", "get_props"), ("src/enc/lzma2_writer.rs", "with_preset"), ("src/enc/lzma2_writer.rs", "set_preset"), ("src/enc/lzma2_writer.rs", "get_extra_size_before")],
+  contract="in-range (lc,lp,pb) <-> properties byte <= 224 bijectively (the readers' decomposition recovers them); every preset yields in-range options")
 
 # ---------------------------------------------------------------------------------------- quick-tier budget
 # Harnesses kept in the quick tier per unit; every other harness of the unit runs in the thorough tier only.
